@@ -61,3 +61,13 @@ CHECKS["C05"] = dict(level=EX, engine="E3", design_ref="DESIGN.md section 3 C05"
    technique="deviation-bounded exhaustive tree enumeration with a differential oracle (validate.tree vs per-node validate.node in document order) and a metadata-content menu",
    text="On every tree within d mutations of the bases the whole-tree result is compared with the per-node results entry by entry (identity of the offending node, code, message, details; first failing node in fail-fast mode). Under every metadata node each subtree of a menu is hung and outcomes are compared across the menu, with exactly one extra MAX_OCCURRENCE_EXCEEDED for two or more children.",
    note="validate.node is the reference here (its own correctness is C01-C03); bases and mutation menu as in C04.")
+
+CHECKS["C06"] = dict(level=EX, engine="E3", design_ref="DESIGN.md section 3 C06",
+   technique="exhaustive enumeration of tree shapes x field deviations, round-tripped through the three JSON paths with snapshot and text-identity oracles",
+   text="All ordered tree shapes up to 5 (6) nodes and every placement of up to 2 (3) field deviations from a menu covering each Node field (JSON-special, control, non-ASCII and astral characters, dict insertion orders, namespace declarations/re-declarations, minted ids) are serialised and reloaded through metapype_io (compact and indented), mp_io, and the converter-upgraded legacy document; deep snapshot equality incl. dict order, parent links, registry rebinding and byte-identical re-serialisation are required.",
+   note="Shape size and deviation count bound the space; to_20210209 is extracted from utils/convert.py with ast (importing the file has side effects).")
+
+CHECKS["C07"] = dict(level=EX, engine="E3", design_ref="DESIGN.md section 3 C07",
+   technique="exhaustive bounded string enumeration in every text slot of small decorated trees; output judged by two independent parsers (expat infoset, libxml2) and by re-import",
+   text="For tree shapes up to 4 (5) nodes in three namespace decorations, every content/tail/attribute/extras slot takes every string up to length 2 (3) over the XML-special alphabet plus special words, singly and in all pairs of slots; both exporters' output must parse with expat and libxml2, mirror the tree (names, prefixes resolved to URIs, attributes, qualified attributes, in-scope bindings, order, text up to surrounding XML whitespace) and re-import to the same tree in clean and raw mode.",
+   note="Alphabet/length/shape bounds; carriage returns, namespace URIs with markup characters and characters outside XML 1.0 are outside the quantifier; the EML exporter gets a private copy without mixed content.")
